@@ -315,9 +315,8 @@ them is equal too — there is nothing further to state. -/
 
 /-! ## 5. MultiMOORA: rank matrix and pairwise-dominance score -/
 
-/-- row `i` of the rank matrix: the ranks of alternative `i` under RatioMOORA, ReferencePointMOORA, FMF -/
-noncomputable def multimooraRows [NeZero m] [NeZero n] (A : Mat m n ℝ) (o : Vec n Obj) (w : Vec n ℝ) : Fin m → List ℕ :=
-  fun i => [rankVec true (ratio A o w) i, rankVec false (refpoint A o w) i, rankVec true (fmfCode A o w) i]
+/-! `multimooraRows A o w i` (defined in `Skc/Proofs/Perm.lean`) is row `i` of the rank matrix: the ranks of alternative `i`
+under RatioMOORA, ReferencePointMOORA (lower is better) and FullMultiplicativeForm. -/
 
 /-- `rank_matrix = np.vstack([ratio_rank, refpoint_rank, fmf_rank]).T` has these rows -/
 theorem multimoora_rank_matrix [NeZero m] [NeZero n] (A : Mat m n ℝ) (o : Vec n Obj) (w : Vec n ℝ) :
